@@ -2,7 +2,7 @@
    validate (arg-max agreement for a soft-max output layer, the tolerance band otherwise) follows the
    activation the output layer has NOW - it is read from the layer at every call. *)
 From NV Require Import Prelude Num Random Tensor Activation Objective Optimizer Layers Network Learn.
-From NV.Theory Require Import Monad Lists Build C18 C17.
+From NV.Theory Require Import Monad Lists Build C18 C17 Chunks Par Training.
 Set Implicit Arguments.
 
 Section SetAct.
@@ -74,3 +74,43 @@ Section SetAct.
     cbn [d_act]. destruct a; reflexivity.
   Qed.
 End SetAct.
+
+(* predict_batch, position by position: as many results as inputs, and the i-th result is the
+   prediction of the i-th input (any ordered parallel map, any number of inputs) *)
+Lemma mapM_nth A B (f : A -> res B) : forall l r i x,
+  mapM f l = Ok r -> nth_error l i = Some x -> exists y, nth_error r i = Some y /\ f x = Ok y.
+Proof.
+  induction l as [|h l IH]; intros r i x H Hi.
+  - destruct i; discriminate.
+  - cbn [mapM] in H. destruct (f h) as [y|] eqn:Eh; [|discriminate]. cbn [bind] in H.
+    destruct (mapM f l) as [ys|] eqn:El; [|discriminate]. cbn [bind] in H. injection H as <-.
+    destruct i as [|i]; cbn [nth_error] in *.
+    + injection Hi as <-. exists y. split; [reflexivity|exact Eh].
+    + exact (IH ys i x eq_refl Hi).
+Qed.
+
+Theorem predict_batch_positional (N : Num) (p : pmap_t) (Hp : pmap_ordered p) (n : network N) xs ys :
+  predict_batch p n xs = Ok ys ->
+  length ys = length xs /\
+  forall i x, nth_error xs i = Some x -> exists y, nth_error ys i = Some y /\ predict n x = Ok y.
+Proof.
+  rewrite (predict_batch_spec Hp). intros H. split.
+  - exact (mapM_length _ _ H).
+  - intros i x Hi. exact (mapM_nth _ _ _ H Hi).
+Qed.
+
+(* and it succeeds whenever every single prediction does *)
+Lemma mapM_all_ok A B (f : A -> res B) : forall l,
+  (forall x, In x l -> exists y, f x = Ok y) -> exists r, mapM f l = Ok r.
+Proof.
+  induction l as [|h l IH]; intros H.
+  - exists []. reflexivity.
+  - destruct (H h (or_introl eq_refl)) as [y Hy].
+    destruct (IH (fun x Hx => H x (or_intror Hx))) as [r Hr].
+    exists (y :: r). cbn [mapM]. rewrite Hy. cbn [bind]. rewrite Hr. reflexivity.
+Qed.
+
+Theorem predict_batch_succeeds_when_each_predict_does (N : Num) (p : pmap_t) (Hp : pmap_ordered p)
+        (n : network N) xs :
+  (forall x, In x xs -> exists y, predict n x = Ok y) -> exists ys, predict_batch p n xs = Ok ys.
+Proof. rewrite (predict_batch_spec Hp). apply mapM_all_ok. Qed.
